@@ -183,7 +183,7 @@ package flow
 // existed before — the old table, the lists published in it, the caller's raw lists — is written (requests that hold
 // an old list keep reading it); the raw map is recorded.
 //@ func onRuleUpdate(rawResRulesMap) err
-//@   props C13, C15
+//@   props C13
 //@   requires[holds-the-update-lock]{C15} wlockcount(updateRuleMux) > 0
 //@   requires tcMap != nil
 //@   ensures[raw-recorded] err == nil ==> currentRules == rawResRulesMap
@@ -279,11 +279,11 @@ package flow
 // tcMap is never edited again (requests that took it under the read lock keep reading it without a lock: C15
 // "decided entirely by the old or the new list"); other resources' entries stay as they are; the raw list is recorded.
 //@ func onResourceRuleUpdate(res, rawResRules) err
-//@   props C13, C15
+//@   props C13
 //@   requires[holds-the-update-lock]{C15} wlockcount(updateRuleMux) > 0
 //@   requires tcMap != nil && currentRules != nil && tcMap != currentRules && allocated(base(tcMap[res]))
 //@   let published = tcMap[res]
-//@   ensures[published-list-not-rewritten] forall k Int :: 0 <= k && k < len(published) ==> published[k] == old(published[k])
+//@   ensures[published-list-not-rewritten]{C13,C15} forall k Int :: 0 <= k && k < len(published) ==> published[k] == old(published[k])
 //@   ensures[raw-recorded] err == nil ==> currentRules[res] == rawResRules
 //@   ensures[other-resources-untouched] forall s Str :: s != res ==> has(tcMap, s) == old(has(tcMap, s)) && tcMap[s] == old(tcMap[s])
 //@   modifies mapof(tcMap), mapof(currentRules)
